@@ -111,58 +111,6 @@ def release (h : Heap) (v : Nat) : Heap × Bool :=
 
 
 
-/-- the public mutators covered by the model -/
-inductive Op
-  | addComponent (c x : Nat)          -- Component::addComponent
-  | addToModel (m x : Nat)            -- Model::addComponent
-  | addVariable (c x : Nat)
-  | addReset (c x : Nat)
-  | addUnits (m x : Nat)
-  | removeIdx (c : Nat) (k : CK) (i : Nat)      -- remove…(index), take…(index)
-  | removePtr (c : Nat) (k : CK) (x : Nat)      -- remove…(pointer)
-  | removeName (c : Nat) (k : CK) (n : String)  -- remove…(name), take…(name)
-  | removeAll (c : Nat) (k : CK)
-  | addEquivalence (v w : Nat)
-  | removeEquivalence (v w : Nat)
-  | removeAllEquivalences (v : Nat)
-  | release (v : Nat)                 -- the owner's last reference to a parentless variable goes away
-  deriving Repr
-
-def step (look : Look) (nameOf : Nat → String) (fuel : Nat) (h : Heap) : Op → Heap × Bool
-  | .addComponent c x => addComponent look fuel h c x
-  | .addToModel m x => addChild look h m .comp x
-  | .addVariable c x => addChild look h c .var x
-  | .addReset c x => addChild look h c .reset x
-  | .addUnits m x => addChild look h m .units x
-  | .removeIdx c k i => removeIdx h c k i
-  | .removePtr c k x => removePtr look h c k x
-  | .removeName c k n => removeName nameOf h c k n
-  | .removeAll c k => (removeAll h c k, true)
-  | .addEquivalence v w => addEquivalence h v w
-  | .removeEquivalence v w => removeEquivalence h v w
-  | .removeAllEquivalences v => (removeAllEquivalences h v, true)
-  | .release v => release h v
-
-/-- what the claim asks of an operation: objects of the right kind, and not "add to the container that already holds it" -/
-def Valid (kindOf : Nat → CK) (h : Heap) : Op → Prop
-  | .addComponent c x => kindOf x = .comp ∧ h.parent x ≠ some c
-  | .addToModel m x => kindOf x = .comp ∧ h.parent x ≠ some m
-  | .addVariable c x => kindOf x = .var ∧ h.parent x ≠ some c
-  | .addReset c x => kindOf x = .reset ∧ h.parent x ≠ some c
-  | .addUnits m x => kindOf x = .units ∧ h.parent x ≠ some m
-  | _ => True
-
-def run (look : Look) (nameOf : Nat → String) (fuel : Nat) (h : Heap) (ops : List Op) : Heap :=
-  ops.foldl (fun h op => (step look nameOf fuel h op).1) h
-
-/-- every operation of the history is valid in the state it is applied to -/
-def AllValid (kindOf : Nat → CK) (look : Look) (nameOf : Nat → String) (fuel : Nat) : Heap → List Op → Prop
-  | _, [] => True
-  | h, op :: ops => Valid kindOf h op ∧ AllValid kindOf look nameOf fuel (step look nameOf fuel h op).1 ops
-
-def empty : Heap := ⟨fun _ => none, fun _ _ => [], fun _ => []⟩
-
-
 /-- `ComponentEntity::replaceComponent(index, newComponent)` (after the repair e1765a5) -/
 def replaceComponent (look : Look) (fuel : Nat) (h : Heap) (c i x : Nat) : Heap × Bool :=
   match (h.kids c .comp)[i]? with
@@ -199,5 +147,63 @@ def replaceUnits (look : Look) (h : Heap) (m i x : Nat) : Heap × Bool :=
         let l := (h1.kids m .units).set j x
         ({ h1 with parent := upd (upd h1.parent old none) x (some m), kids := updK h1.kids m .units l }, true)
       else (h1, false)
+
+/-- the public mutators covered by the model -/
+inductive Op
+  | addComponent (c x : Nat)          -- Component::addComponent
+  | addToModel (m x : Nat)            -- Model::addComponent
+  | addVariable (c x : Nat)
+  | addReset (c x : Nat)
+  | addUnits (m x : Nat)
+  | removeIdx (c : Nat) (k : CK) (i : Nat)      -- remove…(index), take…(index)
+  | removePtr (c : Nat) (k : CK) (x : Nat)      -- remove…(pointer)
+  | removeName (c : Nat) (k : CK) (n : String)  -- remove…(name), take…(name)
+  | removeAll (c : Nat) (k : CK)
+  | addEquivalence (v w : Nat)
+  | removeEquivalence (v w : Nat)
+  | removeAllEquivalences (v : Nat)
+  | release (v : Nat)                 -- the owner's last reference to a parentless variable goes away
+  | replaceComponent (c i x : Nat)    -- ComponentEntity::replaceComponent(index, component)
+  | replaceUnits (m i x : Nat)        -- Model::replaceUnits(index, units)
+  deriving Repr
+
+def step (look : Look) (nameOf : Nat → String) (fuel : Nat) (h : Heap) : Op → Heap × Bool
+  | .addComponent c x => addComponent look fuel h c x
+  | .addToModel m x => addChild look h m .comp x
+  | .addVariable c x => addChild look h c .var x
+  | .addReset c x => addChild look h c .reset x
+  | .addUnits m x => addChild look h m .units x
+  | .removeIdx c k i => removeIdx h c k i
+  | .removePtr c k x => removePtr look h c k x
+  | .removeName c k n => removeName nameOf h c k n
+  | .removeAll c k => (removeAll h c k, true)
+  | .addEquivalence v w => addEquivalence h v w
+  | .removeEquivalence v w => removeEquivalence h v w
+  | .removeAllEquivalences v => (removeAllEquivalences h v, true)
+  | .release v => release h v
+  | .replaceComponent c i x => replaceComponent look fuel h c i x
+  | .replaceUnits m i x => replaceUnits look h m i x
+
+/-- what the claim asks of an operation: objects of the right kind, and not "add to the container that already holds it" -/
+def Valid (kindOf : Nat → CK) (h : Heap) : Op → Prop
+  | .addComponent c x => kindOf x = .comp ∧ h.parent x ≠ some c
+  | .addToModel m x => kindOf x = .comp ∧ h.parent x ≠ some m
+  | .addVariable c x => kindOf x = .var ∧ h.parent x ≠ some c
+  | .addReset c x => kindOf x = .reset ∧ h.parent x ≠ some c
+  | .addUnits m x => kindOf x = .units ∧ h.parent x ≠ some m
+  | .replaceComponent _ _ x => kindOf x = .comp
+  | .replaceUnits _ _ x => kindOf x = .units
+  | _ => True
+
+def run (look : Look) (nameOf : Nat → String) (fuel : Nat) (h : Heap) (ops : List Op) : Heap :=
+  ops.foldl (fun h op => (step look nameOf fuel h op).1) h
+
+/-- every operation of the history is valid in the state it is applied to -/
+def AllValid (kindOf : Nat → CK) (look : Look) (nameOf : Nat → String) (fuel : Nat) : Heap → List Op → Prop
+  | _, [] => True
+  | h, op :: ops => Valid kindOf h op ∧ AllValid kindOf look nameOf fuel (step look nameOf fuel h op).1 ops
+
+def empty : Heap := ⟨fun _ => none, fun _ _ => [], fun _ => []⟩
+
 
 end Cellml.Heap
